@@ -208,7 +208,7 @@ func Judge(c Case) (v string) {
 	}
 	if c.EndErr != "" {
 		// not a clean end: the reader's error itself, whatever was pending
-		if e := endErrOf(c.EndErr); (!c.Conn && err != e) || (c.Conn && !errors.Is(err, e)) || errors.Is(err, sse.ErrUnexpectedEOF) {
+		if e := endErrOf(c.EndErr); !errors.Is(err, e) || errors.Is(err, sse.ErrUnexpectedEOF) {
 			return viol(entry+": a read error at the end of the stream is not reported as itself", c, "the reader failed with %q but the error reported is %v", e, err)
 		}
 		return ""
